@@ -89,6 +89,15 @@ def opsExpr (op : String) (ins outs : List String) : Option String :=
       else do
         let z ← parseMatItv z
         pure (if matIn v z then "ok value-enclosed" else "FAIL value-outside-enclosure")
+  | "evalt", [_, _, _, o], [z] =>
+    -- expressions with elementary functions: `o` is a rigorous enclosure (MPFR interval arithmetic, trusted oracle) of the
+    -- real value at a point of the box; the value must belong to the result `z` of the evaluation over the box
+    if o == "U" then pure "ok undefined-or-undecided-at-point" else do
+    let o ← parseItv o
+    if z == "E" then pure "FAIL empty-result-but-defined-at-point" else do
+    let z ← parseItv z
+    pure (if (Itv.inter o z).isEmpty then "FAIL value-outside-enclosure"
+          else if Itv.subset o z then "ok value-enclosed elementary" else "ok value-at-the-bound-undecided")
   | "evalpt_comp", [dag, pt, i], [z] => do
     let (funs, main) ← parseProgram dag
     let p ← parsePoint pt; let i ← i.toNat?
